@@ -28,10 +28,14 @@ TRUSTED_BASE = [
 ASSUMPTIONS = [
     "labels are atomic steps (C01) over the specs' network models (C06)",
     "dqueue: consumers are self in 1..NUM_CONSUMERS, PRODUCER = 0",
+    "shcounter: cntr is one atomic variable (C11); proxy: PerfectFD mapping and NUM_SERVERS < 100; loadbalancer: NUM_SERVERS > 0 for assertion freedom",
+    "gcounter / shopcart / nestedcrdtimpl: the spec processes that are not archetypes (UpdateGCntr, UpdateCRDT, Node) are Go transcriptions driven as environment actions",
 ]
 RULE = ("cases = schedules per system from one PRNG (VERIF_SEED): seeded online random walks of the harness (steplib.Walker) and blind explicit "
-        "schedules, over the instance sizes listed in input_distribution; corpus first. Non-trivial (dqueue) = a walk in which the producer's mailbox "
-        "held >= 2 requests or >= 3 items were produced; distinct by the schedule actually taken.")
+        "schedules, over the instance sizes listed in input_distribution; corpus first. Non-trivial: dqueue = the producer's mailbox held >= 2 requests or >= 3 items "
+        "were produced; shcounter = >= 2 nodes and a node had to wait; loadbalancer = >= 2 pages received through >= min(2, NUM_SERVERS) servers; gcounter / shopcart = "
+        ">= 2 nodes and >= 2 merges; proxy = a request answered and (a server failed or >= 2 answers); nestedcrdtimpl = a committed section and (1 node or a peer merge); "
+        "distinct by the schedule actually taken.")
 
 
 def corpus():
@@ -157,9 +161,9 @@ MANIFEST = {
              "shopcart (complete for the instance the spec declares, ANodeBench + AWORSet): StrongConvergence, QueryOK, equal knowledge => equal query, add clocks monotone, "
              "remove maps stay Null, no ill-typed step. "
              "proxy (_partial): ProxyOK under the perfect failure detector and NUM_SERVERS < 100, FAIL reported only if all servers stopped, FD accuracy proved; "
-             "assertion freedom open (oracle only). nestedcrdtimpl, replicatedkv and the *.gotests programs: NOT covered yet. Tie: the generated archetypes "
+             "assertion freedom open (oracle only). nestedcrdtimpl (_partial): MonotonicState (no component of any replica state decreases in any step), view never decreases; StateSanity as written in the spec is refuted (sums over sets; known finding, witness replayed on the generated code), the bound it intends and assertion freedom are oracle-only. replicatedkv and the *.gotests programs: NOT covered. Tie: the generated archetypes "
              "run under the real Run loop one attempt at a time over spec-state resources (the specs' mapping macros); each model runs the same schedule in Coq; every "
              "post-state and outcome compared; implementation-side oracles per system on the Go observations."),
-    "level_note": ("Partial as stated per system; systems not modelled are not covered. Trusted: Coq kernel; hand-written models (differential tie: 88 quick / 9500 thorough "
+    "level_note": ("Partial as stated per system; systems not modelled are not covered. Trusted: Coq kernel; hand-written models (differential tie: 102 quick / 11000 thorough "
                    "walks + corpus); spec-state resources replacing the deployment resources; gcounter's merge process is a Go transcription of the spec process."),
 }
